@@ -155,7 +155,7 @@ func candidates(c *Case) []*Case {
 				mode := mode
 				try(idx, func(slot **gen.Spec) bool {
 					s := *slot
-					if si >= len(s.S) || s.K == "sentinel" || (s.K == "risleaf" && si == 1) {
+					if si >= len(s.S) || s.K == "sentinel" || ((s.K == "risleaf" || s.K == "umultiis") && si == 1) {
 						return false
 					}
 					old := s.S[si]
